@@ -36,7 +36,7 @@ def gen_convs(ctx):
     return convs
 
 
-def oracle(ctx, convs):
+def oracle(ctx, convs, normal_ids):
     rng = ctx.rng
     lines, meta = [], []
     for i, c in enumerate(convs):
@@ -52,6 +52,8 @@ def oracle(ctx, convs):
     seen_known = set()
     for (c, m), line, out in zip(meta, lines, res):
         v, fs, why = A.judge(c, m, out)
+        if v == "ok" and not fs and m == "cs" and not A.features(c, "conv"):
+            normal_ids.add(out["id"])      # in normal form: also checked against the Coq specification's report
         nontrivial = len(out["items"]) > 0
         ctx.count_case(("conv", line), nontrivial, "conv-" + c.note.split(":")[0])
         if v == "known":
@@ -99,13 +101,15 @@ def run(ctx):
         if len(res) != len(clines):
             ctx.violation({"kind": "amqp-corpus-crash", "case": json.loads(clines[len(res)]), "output_tail": raw[-800:],
                            "why": "the process died on a witness of a repaired defect"})
-    pairs += oracle(ctx, gen_convs(ctx))
+    normal_ids = set()
+    pairs += oracle(ctx, gen_convs(ctx), normal_ids)
     mal = A.c01(ctx)
     # correspondence: small cases first, malformed ones included
     if model_ok:
         kpairs = sorted(mal, key=lambda p: len(p[0]))[:700 if ctx.tier == "quick" else 20000] + \
             sorted(pairs, key=lambda p: (len(p[0]) // 600, hash(p[0])))
-        bad, n = A.k_check(ctx, "k_cases", kpairs, budget=2200000 if ctx.tier == "quick" else 40000000)
+        bad, n = A.k_check(ctx, "k_cases", kpairs, budget=2200000 if ctx.tier == "quick" else 40000000, normal_ids=normal_ids)
+        ctx.cov["normal_form_conversations_checked_against_spec_report"] = len(normal_ids)
         ctx.cov["traces_validated_against_impl"] = n
         if bad is None:
             ctx.broken.append("K_amqp: coqc failed on the case file")
